@@ -388,6 +388,29 @@ pub fn run_c04(tier: &str) -> i32 {
                 }
                 i += step;
             }
+            if *p == Proto::V1P && base_key.pk.len() > 9 && base_key.pk.ends_with(&[0x02, 0x03, 0x01, 0x00, 0x01]) && base_key.pk.starts_with(&[0x30, 0x82]) {
+                // the same modulus under other public exponents (RSAPublicKey ::= SEQUENCE { n INTEGER, e INTEGER },
+                // rebuilt with its lengths): exponents of 1 to 9 bytes, incl. values that equal 65537 modulo 2^16,
+                // 2^24, 2^32 and 2^64 and the limits of what verifiers accept (2^33 - 1)
+                let modulus_tlv = &base_key.pk[4..base_key.pk.len() - 5];
+                let exps: [u128; 20] = [0, 1, 3, 5, 17, 257, 65_535, 65_539, (1 << 16) + 65_537, (1 << 17) + 1, (1 << 24) + 65_537, (1 << 31) + 65_537, (1u128 << 32) + 65_537, (1u128 << 32) + 1, (1u128 << 33) - 1, (1u128 << 33) + 65_537, (1u128 << 40) + 65_537, (1u128 << 63) + 65_537, (1u128 << 64) + 65_537, (1u128 << 65) + 65_537];
+                for e in exps {
+                    let mut eb: Vec<u8> = e.to_be_bytes().iter().copied().skip_while(|b| *b == 0).collect();
+                    if eb.is_empty() || eb[0] & 0x80 != 0 {
+                        eb.insert(0, 0);
+                    }
+                    let mut body = modulus_tlv.to_vec();
+                    body.push(0x02);
+                    body.push(eb.len() as u8);
+                    body.extend_from_slice(&eb);
+                    let mut der = vec![0x30, 0x82, (body.len() >> 8) as u8, body.len() as u8];
+                    der.extend_from_slice(&body);
+                    let mut pres = Presentation::of(&case, &token);
+                    pres.pk_hex = b64::hex(&der);
+                    check("C04", "rsa-same-modulus-other-exponent", &case, &token, &pres, None, &mut acc);
+                    acc.choice_points += 1;
+                }
+            }
             if *p == Proto::V3P {
                 // same x, other parity prefix
                 for k in &pool {
